@@ -455,6 +455,19 @@ def check_pair_order(facts, rep):
                 return None
             if x[0] == 'call' and x[1].split('::')[-1] == 'as_str' and x[2]:
                 x = strip(x[2][0])
+            # s[..p] / s[p + 1..]: slices of the input around one position
+            if x[0] == 'call' and x[1].split('::')[-1] == 'index' and len(x[2]) == 2 and strip(x[2][1])[0] == 'adt':
+                base, rg = strip(x[2][0]), strip(x[2][1])
+                while base[0] == 'call' and base[1].split('::')[-1] in ('deref', 'as_str') and len(base[2]) == 1:
+                    base = strip(base[2][0])
+                flds = dict(zip(rg[3], rg[4]))
+                if base == ('arg', 1) and rg[1].endswith('RangeTo') and set(flds) == {'end'}:
+                    cut['to'] = sk(flds['end'])
+                    return 'before'
+                if base == ('arg', 1) and rg[1].endswith('RangeFrom') and set(flds) == {'start'}:
+                    cut['from'] = sk(flds['start'])
+                    return 'after'
+                return None
             if x[0] == 'field' and x[2] in ('Some.0.0', 'Some.0.1') and strip(x[1])[0] == 'call' and strip(x[1])[1].split('::')[-1] in ('split_once', 'rsplit_once'):
                 return 'before' if x[2].endswith('.0') else 'after'
             if x[0] == 'field' and x[2] in ('0', '1') and strip(x[1])[0] == 'field' and strip(x[1])[2] == 'Some.0':
@@ -484,7 +497,10 @@ def check_pair_order(facts, rep):
                     return ('after', 'before')[k]
                 return None
             return None
+        cut = {}
         pa, pb = piece(tup[1][0]), piece(tup[1][1])
+        if cut and not (set(cut) == {'to', 'from'} and cut['from'] == 'AddWithOverflow(%s, 1).0' % cut['to']):
+            pa = pb = None      # the two slices are not cut at one position p / p + 1
         if (pa, pb) == ('whole', 'const'):
             continue
         seen.append((pa, pb, s[:120]))
